@@ -290,6 +290,7 @@ func GenPair(t *rapid.T, o GenOpts) (c, s EP, m Meta) {
 	}
 	c.MTU, s.MTU = genMTU("mtuC"), genMTU("mtuS")
 	s.SkipHelloVfy = rapid.IntRange(0, 2).Draw(t, "skiphv") == 0
+	c.MaxFirst, s.MaxFirst = rapid.Bool().Draw(t, "maxfirstC"), rapid.Bool().Draw(t, "maxfirstS")
 	// a session store on one side only (the server then still issues a session id the client has no use
 	// for; the client then offers nothing the server could know)
 	switch rapid.IntRange(0, 7).Draw(t, "onestore") {
